@@ -186,7 +186,7 @@ where
     */
     pub fn seed(mut self, seed: u64) -> Self {
         for (i, chain) in self.chains.iter_mut().enumerate() {
-            let chain_seed = 1 + seed + i as u64;
+            let chain_seed = seed.wrapping_add(i as u64).wrapping_add(1);
             chain.rng = SmallRng::seed_from_u64(chain_seed)
         }
         self
